@@ -122,12 +122,12 @@ def add_lattice_universe(d, rng, u, next_id, new_universe, kind=None, lat_tr_p=0
     cell = D.Cell(cell_id, e, mat=mat, rho=rng.choice(['-2.7', '-1.0', '0.05']), imp=1, u=u,
                   fill={'ranges': ranges, 'us': us, 'tr': None}, lat=1 if kind.startswith(('rect', 'skew')) else 2)
     if rng.random() < lat_tr_p:
-        m, cls = G.random_motion(rng, rng.choice(rot_classes) if rot_classes else None)
+        m, cls = G.random_motion(rng, rng.choice(rot_classes) if rot_classes else ('mirror' if rng.random() < 0.1 else None))
         cell.fill['tr'] = m
-        if rng.random() < 0.3 and cls != 'generic':
+        if rng.random() < 0.3 and cls not in ('generic', 'mirror'):
             cell.hints['fill_star'] = True
     if rng.random() < lat_trcl_p:
-        m, cls = G.random_motion(rng, rng.choice(rot_classes) if rot_classes else None)
+        m, cls = G.random_motion(rng, rng.choice(rot_classes) if rot_classes else ('mirror' if rng.random() < 0.1 else None))
         cell.trcl = m
     d.cells.append(cell)
     return cell
